@@ -28,7 +28,7 @@ ASSUMPTIONS = [
     'time fields are non-empty ASCII digit strings (other spellings float() accepts are not generated); the model '
     'evaluates the time arithmetic in IEEE doubles like the code (Lean Float = C double), so pauses of exactly the break '
     'duration between fractional times are generated and compared, too; the exact-time theorems (corpus_eq, ...) carry '
-    'TimesExact + FloatCompareAgrees, the share of generated documents inside/outside TimesExact is counted (doc_times:*)',
+    'the decidable hypothesis CodeCompareAgrees, which the driver evaluates for every generated document together with TimesExact (counters doc:*); the implication between them (TimesExactSuffices) is an OPEN statement',
     'file names are valid UTF-8 without surrogates; the locale encoding of open(outfile, "wt") is UTF-8',
     'unreadable means FileNotFoundError (dangling link); a *.gz file that is not gzip data aborts the run with an OSError '
     '(modelled and compared, not part of the property)',
@@ -444,9 +444,13 @@ def run(rep, pool, driver, tier):
             gz = [(p, e) for p, e in c['tree'] if p.endswith('.gz') and e != 'dir']
             n_dang = sum(1 for _, e in gz if e == 'dangling')
             rep.case(model_request(c), nontrivial=len(gz) >= 2, stream='create_corpus')
-            for _p, e in c['tree']:
-                if isinstance(e, dict):
-                    rep.count('doc_times:' + ('inside TimesExact margin' if times_ok(e['doc']) else 'pause within one frame of the break (float comparison decides)'))
+            # per document, from the driver: is it inside TimesExact (the margin condition), and did the doubles
+            # and the rationals order every comparable pair of times the same way (the hypothesis CodeCompareAgrees of
+            # the exact-time theorems)?  The OPEN statement TimesExactSuffices says the first implies the second.
+            for dd in model.get('docs', []):
+                rep.count('doc:times_exact=%s,compare_agrees=%s' % (dd.get('times_exact'), dd.get('compare_agrees')))
+                if dd.get('times_exact') and not dd.get('compare_agrees'):
+                    rep.lean_problems.append('C19.TimesExactSuffices (OPEN statement) is refuted by document %s of a generated tree' % dd.get('path'))
             rep.count('outcome:' + (model.get('raised') or 'Returned'))
             rep.count('n_threads:%d' % c['n_threads'])
             rep.count('verbose:%s' % bool(c.get('verbose')))
